@@ -148,7 +148,7 @@ Section Sim.
     - rd_step (block (h_size h)) q q0 Hq.
       specialize (IH _ _ Hq0). destruct IH as [IH1 IH2].
       destruct (fromtar St1 rd1 f q1) as [x1 s1], (fromtar St2 rd2 f q2) as [x2 s2]. simpl in *. subst x2.
-      destruct x1 as [e| | |h' od no]; try destruct e; simpl; split; try reflexivity; try assumption.
+      destruct x1 as [e| | |h' od no|]; try destruct e; simpl; split; try reflexivity; try assumption.
     - destruct (is_pax_type (h_type h)); [split; [reflexivity|assumption]|].
       destruct Hq as [Hp Hr]. simpl. rewrite Hp. split; [reflexivity|split; assumption].
   Qed.
@@ -175,7 +175,7 @@ Section Sim.
       simpl in Ha; try contradiction; [|split; [reflexivity|split; assumption]].
     pose proof (fromtar_sim fuel a b Ha) as [H1 H2].
     destruct (fromtar St1 rd1 fuel a) as [x1 s1], (fromtar St2 rd2 fuel b) as [x2 s2]. simpl in *. subst x2.
-    destruct x1 as [e| | |h od no]; try destruct e; simpl; split; try reflexivity; try assumption.
+    destruct x1 as [e| | |h od no|]; try destruct e; simpl; split; try reflexivity; try assumption.
   Qed.
 
   Definition T3 {A B} (x : A * B * rst St1) (y : A * B * rst St2) : Prop :=
@@ -236,10 +236,11 @@ Section Sim.
         destruct (fsr_loop St1 rd1 sk1 legacy fuel bufsz od (h_size h) 0 r1 []) as [[o1 a1] s1].
         destruct (fsr_loop St2 rd2 sk2 legacy fuel bufsz od (h_size h) 0 r2 []) as [[o2 a2] s2].
         simpl in *. subst. destruct o2; t3done.
-      + destruct (h_type h =? T_DIR); [|repeat split; apply H].
-        destruct (rel_under base (h_name h)) as [p|]; [|repeat split; apply H].
-        destruct (makedirs _ _ t) as [t1|]; [|repeat split; apply H].
-        destruct (t_get p t1) as [[|]|]; repeat split; apply H.
+      + (* directory / symlink / hard link: the stream is not touched *)
+        repeat match goal with
+               | |- context [if ?c then _ else _] => destruct c
+               | |- context [match ?x with _ => _ end] => destruct x
+               end; repeat split; apply H.
   Qed.
 
   Lemma run_loop_sim : forall fuel base bufsz off r1 r2 t, RR r1 r2 ->
@@ -248,7 +249,7 @@ Section Sim.
     induction fuel as [|f IH]; intros base bufsz off r1 r2 t H; [reflexivity|].
     cbn [run_loop]. pose proof (next_sim (S f) off r1 r2 H) as [H1 H2].
     destruct (next St1 rd1 sk1 legacy (S f) off r1) as [x1 s1], (next St2 rd2 sk2 legacy (S f) off r2) as [x2 s2].
-    cbn [fst snd] in *. subst x2. destruct x1 as [| | |h od no]; try reflexivity.
+    cbn [fst snd] in *. subst x2. destruct x1 as [| | |h od no|]; try reflexivity.
     pose proof (extract_member_sim (S f) base bufsz h od s1 s2 t H2) as (E1 & E2 & E3).
     destruct (extract_member St1 rd1 sk1 legacy (S f) base bufsz h od s1 t) as [[o1 t1] q1].
     destruct (extract_member St2 rd2 sk2 legacy (S f) base bufsz h od s2 t) as [[o2 t2] q2].
@@ -261,7 +262,7 @@ Section Sim.
     induction fuel as [|f IH]; intros off r1 r2 acc H; [reflexivity|].
     cbn [members]. pose proof (next_sim (S f) off r1 r2 H) as [H1 H2].
     destruct (next St1 rd1 sk1 legacy (S f) off r1) as [x1 s1], (next St2 rd2 sk2 legacy (S f) off r2) as [x2 s2].
-    cbn [fst snd] in *. subst x2. destruct x1 as [| | |h od no]; try reflexivity.
+    cbn [fst snd] in *. subst x2. destruct x1 as [| | |h od no|]; try reflexivity.
     destruct (has_data (h_type h)); [|now apply IH].
     pose proof (fsr_sim (S f) None od (h_size h) 0 s1 s2 [] H2) as (E1 & E2 & E3).
     destruct (fsr_loop St1 rd1 sk1 legacy (S f) None od (h_size h) 0 s1 []) as [[o1 a1] q1].
